@@ -9,7 +9,7 @@ import HugrVerif.Validate
      -> `valid`
       | `(invalid (<rule> <loc>…) …)`   every violated rule with every offending item, in rule order;
                                          loc = node | node port | edge index (position in "edges")
-      | `(undecodable <class>)`          the document is not a `SerialHugr` of the current format
+      | `!unsupported undecodable <class>`   the document is not a `SerialHugr` of the current format
 -/
 namespace HugrVerif.Drive.Validate
 open HugrVerif HugrVerif.Sexp HugrVerif.Bridge HugrVerif.Validate
@@ -28,7 +28,7 @@ def handleDoc (payload : Sexp) : String :=
   | some doc =>
     let fuel := Drive.Serial.jsonSize doc + 8
     match ofJson fuel doc with
-    | .error e => "(undecodable " ++ e ++ ")"
+    | .error e => "!unsupported undecodable " ++ e
     | .ok d => verdict d
 
 end HugrVerif.Drive.Validate
